@@ -21,6 +21,7 @@
 #include <memory>
 #include <unistd.h>
 #include <signal.h>
+#include <filesystem>
 #include "cryptoki.h"
 
 typedef std::vector<unsigned char> Bytes;
@@ -151,13 +152,13 @@ static void run(const std::vector<std::string>& t) {
 	else if (op == "wipe" || op == "snapshot" || op == "restore") {
 		// token-directory management between C_Finalize and C_Initialize (many short traces in one process)
 		const char* td = getenv("VERIF_TOKENDIR");
-		std::string cmd;
 		if (!td) { fprintf(out, "= BADOP\n"); return; }
-		std::string d(td);
-		if (op == "wipe") cmd = "rm -rf '" + d + "' && mkdir -p '" + d + "'";
-		else if (op == "snapshot") cmd = "rm -rf '" + d + ".snap." + t[1] + "' && cp -a '" + d + "' '" + d + ".snap." + t[1] + "'";
-		else cmd = "rm -rf '" + d + "' && cp -a '" + d + ".snap." + t[1] + "' '" + d + "'";
-		int rc = system(cmd.c_str());
+		namespace fs = std::filesystem;
+		std::string d(td); std::error_code ec; int rc = 0;
+		if (op == "wipe") { fs::remove_all(d, ec); fs::create_directories(d, ec); }
+		else if (op == "snapshot") { fs::remove_all(d + ".snap." + t[1], ec); fs::copy(d, d + ".snap." + t[1], fs::copy_options::recursive, ec); }
+		else { fs::remove_all(d, ec); fs::copy(d + ".snap." + t[1], d, fs::copy_options::recursive, ec); }
+		if (ec) rc = 1;
 		fprintf(out, "= %d\n", rc);
 	}
 	else if (op == "init") { fprintf(out, "= %lu\n", C_Initialize(NULL_PTR)); maxHandleSeen = 0; }
